@@ -15,7 +15,7 @@ theorem sumToQ_succ' (n : Nat) (f : Nat → Rat) : sumToQ (n + 1) f = sumToQ n f
 
 theorem sumToQ_zero' (f : Nat → Rat) : sumToQ 0 f = 0 := by simp [sumToQ]
 
-theorem sumToQ_congr' (n : Nat) (f g : Nat → Rat) (h : ∀ j, j < n → f j = g j) :
+theorem sumToQ_congrLt (n : Nat) (f g : Nat → Rat) (h : ∀ j, j < n → f j = g j) :
     sumToQ n f = sumToQ n g := by
   induction n with
   | zero => simp [sumToQ_zero']
@@ -80,7 +80,7 @@ theorem mmulQ3_diag (n : Nat) (x y z : RMat) (i : Nat) :
 theorem mmulQ_cast (n : Nat) (x y : Nat → Nat → Nat) (i j : Nat) :
     mmulQ n (fun a b => (x a b : Rat)) (fun a b => (y a b : Rat)) i j = ((mmul n x y i j : Nat) : Rat) := by
   simp only [mmulQ, mmul, sumTo_cast]
-  apply sumToQ_congr'
+  apply sumToQ_congrLt
   intro k _
   push_cast
   ring
@@ -88,6 +88,20 @@ theorem mmulQ_cast (n : Nat) (x y : Nat → Nat → Nat) (i j : Nat) :
 theorem toQ_eq_cast (a : Adj) : toQ a = fun i j => ((toN a i j : Nat) : Rat) := by
   funext i j
   cases h : a i j <;> simp [toQ, toN, b2n, h]
+
+/-- weights living on the links only (`link_attribute(key)` is zero where there is no link) -/
+def OnLinks (a : Adj) (m : RMat) : Prop := ∀ x y, a x y = false → m x y = 0
+
+theorem onLinks_mul3 (a : Adj) (m : RMat) (hm : OnLinks a m) (x1 y1 x2 y2 x3 y3 : Nat) :
+    m x1 y1 * m x2 y2 * m x3 y3
+      = if a x1 y1 && a x2 y2 && a x3 y3 then m x1 y1 * m x2 y2 * m x3 y3 else 0 := by
+  cases h1 : a x1 y1
+  · simp [hm _ _ h1]
+  · cases h2 : a x2 y2
+    · simp [hm _ _ h2]
+    · cases h3 : a x3 y3
+      · simp [hm _ _ h3]
+      · simp
 
 /-! ### the loops of `_mpi_newman_betweenness`, rearranged: pairs `(s,t)` outside, neighbours inside -/
 
@@ -106,12 +120,12 @@ theorem newmanRow_eq_pairs (N : Nat) (arow : Nat → Bool) (V : RMat) (i : Nat) 
         if i ≠ s ∧ i ≠ t then (if arow j then absQ (V i s - V j s - V i t + V j t) else 0) else 0 := by
     intro j
     rw [sumToQ_ite']
-    apply sumToQ_congr'
+    apply sumToQ_congrLt
     intro s _
     by_cases hs : i ≠ s
     · rw [if_pos hs]
       rw [sumToQ_ite']
-      apply sumToQ_congr'
+      apply sumToQ_congrLt
       intro t _
       by_cases ht : i ≠ t
       · simp [hs, ht]
@@ -125,10 +139,10 @@ theorem newmanRow_eq_pairs (N : Nat) (arow : Nat → Bool) (V : RMat) (i : Nat) 
         if i ≠ s ∧ i ≠ t then (if arow j then absQ (V i s - V j s - V i t + V j t) else 0) else 0
       from funext h1]
   rw [sumToQ_comm']
-  apply sumToQ_congr'
+  apply sumToQ_congrLt
   intro s _
   rw [sumToQ_comm']
-  apply sumToQ_congr'
+  apply sumToQ_congrLt
   intro t _
   by_cases h : i ≠ s ∧ i ≠ t
   · simp only [if_pos h]
@@ -136,7 +150,7 @@ theorem newmanRow_eq_pairs (N : Nat) (arow : Nat → Bool) (V : RMat) (i : Nat) 
 
 /-! ### number of pairs `t < s < N` one of which is `i` -/
 
-theorem sumToQ_indicator (k i : Nat) :
+theorem sumToQ_indicatorEq (k i : Nat) :
     sumToQ k (fun t => if i = t then (1 : Rat) else 0) = if i < k then 1 else 0 := by
   induction k with
   | zero => simp [sumToQ_zero']
@@ -160,17 +174,17 @@ theorem pairs_through (N i : Nat) :
     · subst hk
       have : sumToQ i (fun t => if i = i ∨ i = t then (1 : Rat) else 0) = (i : Rat) := by
         rw [← sumToQ_const_one i]
-        apply sumToQ_congr'
+        apply sumToQ_congrLt
         intro t _
         simp
       rw [this]
       simp
     · have : sumToQ k (fun t => if i = k ∨ i = t then (1 : Rat) else 0)
           = sumToQ k (fun t => if i = t then (1 : Rat) else 0) := by
-        apply sumToQ_congr'
+        apply sumToQ_congrLt
         intro t _
         simp [hk]
-      rw [this, sumToQ_indicator]
+      rw [this, sumToQ_indicatorEq]
       by_cases h1 : i < k
       · simp [h1, show i < k + 1 by omega]
       · simp [h1, show ¬ i < k + 1 by omega]
